@@ -173,20 +173,49 @@ type StepResult struct {
 	Reads []int64
 }
 
-func (s StepResult) Coq(op Op) string {
+// Coq renders (op, ok, [(index, new value) of the reads that changed since prev]).
+func (s StepResult) Coq(op Op, prev []int64) string {
 	var sb strings.Builder
 	sb.WriteString("(")
 	sb.WriteString(op.Coq())
 	sb.WriteString(", ")
 	sb.WriteString(vh.Bool(s.Ok))
 	sb.WriteString(", [")
+	first := true
 	for i, v := range s.Reads {
+		if v == prev[i] {
+			continue
+		}
+		if !first {
+			sb.WriteString(";")
+		}
+		first = false
+		fmt.Fprintf(&sb, "(%d,%d)", i, v)
+	}
+	sb.WriteString("]%Z)")
+	return sb.String()
+}
+
+// CoqCase renders one history as a C19.Model.case / C20.Model.case term.
+func CoqCase(cfg Cfg, init []int64, ops []Op, steps []StepResult) string {
+	var sb strings.Builder
+	sb.WriteString("(mkCase " + cfg.Coq() + " [")
+	for i, v := range init {
 		if i > 0 {
 			sb.WriteString(";")
 		}
 		fmt.Fprintf(&sb, "%d", v)
 	}
-	sb.WriteString("]%Z)")
+	sb.WriteString("]%Z [")
+	prev := init
+	for i := range steps {
+		if i > 0 {
+			sb.WriteString("; ")
+		}
+		sb.WriteString(steps[i].Coq(ops[i], prev))
+		prev = steps[i].Reads
+	}
+	sb.WriteString("])")
 	return sb.String()
 }
 
@@ -231,25 +260,27 @@ type Mismatch struct {
 }
 
 // Run executes a history on the real database and on the oracle, reading everything after every step.
-func Run(w *World, ops []Op, cfg Cfg, cache int, onStep func(i int, d *DB, s *Spec)) (steps []StepResult, mism []Mismatch, err error) {
+func Run(w *World, ops []Op, cfg Cfg, cache int, onStep func(i int, d *DB, s *Spec)) (init []int64, steps []StepResult, mism []Mismatch, err error) {
 	d := NewDB(w, cache)
 	defer d.Close()
 	spec := &Spec{}
 	var names []string
+	init = ReadAll(ImplReader{D: d}, cfg, &names)
+	for j, want := range ReadAll(SpecReader{S: spec}, cfg, nil) {
+		if init[j] != want {
+			mism = append(mism, Mismatch{Step: -1, Read: names[j], Impl: init[j], Want: want})
+		}
+	}
 	for i, op := range ops {
 		ok, e := d.Apply(op)
 		if e != nil {
-			return steps, mism, fmt.Errorf("step %d (%s): %w", i, op.T, e)
+			return init, steps, mism, fmt.Errorf("step %d (%s): %w", i, op.T, e)
 		}
 		sok := spec.Apply(op)
 		if ok != sok {
 			mism = append(mism, Mismatch{Step: i, Read: "outcome:" + op.T, Impl: b2i(ok), Want: b2i(sok)})
 		}
-		var nm *[]string
-		if names == nil {
-			nm = &names
-		}
-		got := ReadAll(ImplReader{D: d}, cfg, nm)
+		got := ReadAll(ImplReader{D: d}, cfg, nil)
 		want := ReadAll(SpecReader{S: spec}, cfg, nil)
 		for j := range got {
 			if got[j] != want[j] {
@@ -261,7 +292,7 @@ func Run(w *World, ops []Op, cfg Cfg, cache int, onStep func(i int, d *DB, s *Sp
 			onStep(i, d, spec)
 		}
 	}
-	return steps, mism, nil
+	return init, steps, mism, nil
 }
 
 func b2i(b bool) int64 {
